@@ -11,7 +11,7 @@ LEVEL = 'exploration'
 EPS32 = float(np.finfo(np.float32).eps)
 EPS64 = float(np.finfo(np.float64).eps)
 RULE = ('every module type (DWT1D/DWT2D forward+inverse, SWT, DTCWT forward+inverse, ScatLayer, ScatLayerj2) x configuration sub-lattice x '
-        '{float32, float64} x {constructed in that dtype, converted with .float()/.double()}: every returned tensor has the input dtype; '
+        '{float32, float64} x {constructed in that dtype, converted with .float()/.double() before first use, converted after having been used}: every returned tensor has the input dtype; '
         'converted vs constructed within 64*eps32*gain*max|x|; accuracy: the float64 operator A64 is extracted, gain = largest absolute row sum, '
         'inputs = every impulse x {1e-6,1,1e6}, the sign vector attaining every row sum (worst case for rounding) x scales, mixed-dynamic-range '
         '3-sparse vectors and a dense table; oracle max|y32 - y64| <= 64*eps32*(gain*max|x| + bias). Scattering layers: all 1-sparse images x '
@@ -46,12 +46,12 @@ def plan(tier):
                 for d in ('fwd', 'inv'):
                     items.append({'fam': 'dtcwt', 'dir': d, 'biort': b, 'qshift': qs, 'shape': list(hw), 'J': J})
     for b in ['near_sym_a', 'near_sym_b_bp'] + ([] if q else ['antonini']):
-        for mb in [1e-2, 1.0] + ([] if q else [1e-3]):
+        for mb in [0.0, 1e-2, 1.0] + ([] if q else [1e-3]):
             for hw in [(8, 8), (6, 10)]:
                 for cc in (False, True):
                     items.append({'fam': 'scat1', 'dir': 'fwd', 'biort': b, 'magbias': mb, 'shape': list(hw), 'colour': cc})
     for (b, qs) in [('near_sym_a', 'qshift_a'), ('near_sym_b_bp', 'qshift_b_bp')]:
-        for mb in [1e-2, 1.0]:
+        for mb in [0.0, 1e-2, 1.0]:
             for hw in [(8, 8), (16, 8)]:
                 for cc in (False, True):
                     items.append({'fam': 'scat2', 'dir': 'fwd', 'biort': b, 'qshift': qs, 'magbias': mb, 'shape': list(hw), 'colour': cc})
@@ -64,7 +64,7 @@ def bounds(tier):
 
 def required_regimes(tier):
     return {'fam:dwt1d', 'fam:dwt2d', 'fam:swt', 'fam:dtcwt', 'fam:scat1', 'fam:scat2', 'dtype:constructed32', 'dtype:converted32',
-            'dtype:converted64', 'accuracy:impulses', 'accuracy:extremal', 'accuracy:mixed_range', 'layout:strided', 'layout:transposed',
+            'dtype:converted64', 'dtype:used64_then_float', 'dtype:used32_then_double', 'accuracy:impulses', 'accuracy:extremal', 'accuracy:mixed_range', 'layout:strided', 'layout:transposed',
             'layout:expanded', 'layout:channels_last', 'layout:offset', 'mixed_dtype_call'}
 
 
@@ -239,8 +239,17 @@ def run(item):
         return res
     res['impl_calls'] += 1
     xmax = np.abs(V).max(axis=1)
+    def used_then_converted(dt_from, dt_to):
+        # a module that has already served calls in one precision and is then converted (state cached during a call must follow)
+        m = _make(item, dt_from)
+        with torch.no_grad():
+            _call(item, m, [t.to(dt_from) for t in _split(V[:3], shapes)])
+        return m.to(dt_to)
+
     variants = [('constructed32', m32, torch.float32), ('converted32', _make(item, torch.float64).float(), torch.float32),
-                ('converted64', _make(item, torch.float32).double(), torch.float64)]
+                ('converted64', _make(item, torch.float32).double(), torch.float64),
+                ('used64_then_float', used_then_converted(torch.float64, torch.float32), torch.float32),
+                ('used32_then_double', used_then_converted(torch.float32, torch.float64), torch.float64)]
     for name, mod, dt in variants:
         vcfg = dict(cfg, variant=name)
         res.regime('dtype:' + name)
